@@ -263,6 +263,13 @@ DEFECTS = {
         _sp(['env MV = -contents-of missing.txt']),
         _sp(['file m.txt = -contents-of adir']),
         _sp(['copy -rel MH missing.txt'], support=['def path MH = -rel-home .']),
+        # the name exists, but only as a dangling symbolic link: there is no such file
+        _sp(['copy dangling.txt'], tag='dangling_link'),
+        _sp(['copy -rel-home adir/dangling-dir dst'], tag='dangling_link'),
+        _sp(['file m.txt = -contents-of dangling.txt'], tag='dangling_link'),
+        _sp(['run % echo -existing-file dangling.txt'], tag='dangling_link'),
+        _sp(['run % echo -existing-path -rel-home dangling.txt'], tag='dangling_link'),
+        _sp(['run dangling.txt'], tag='dangling_link'),
         # the missing file as a text source WITH a transformation (each part of a text source has its own validator)
         _sp(['file m.txt = -contents-of missing.txt -transformed-by char-case -to-upper'], tag='transformed'),
         _sp(['file m.txt = -contents-of -rel-home missing.txt -transformed-by ( identity | strip )'], tag='transformed'),
@@ -365,7 +372,9 @@ DEFECTS = {
 CLASSES = list(DEFECTS)
 
 EX_PY = 'import sys\nwith open(sys.argv[1], "a") as f:\n    f.write("act\\n")\n'
-HOME_FILES = {'ex.txt': 'x\n', 'adir/x': 'x\n', 'ex.py': EX_PY}
+HOME_FILES = {'ex.txt': 'x\n', 'adir/x': 'x\n', 'ex.py': EX_PY,
+              # names that exist in the home directory only as symbolic links that lead nowhere
+              'dangling.txt': ('symlink', 'no-such-target.txt'), 'adir/dangling-dir': ('symlink', '../no-such-dir')}
 SUITE_MARK = {'setup': 'Ss', 'before-assert': 'Sb', 'assert': 'Sa', 'cleanup': 'Sc'}
 
 
